@@ -170,7 +170,7 @@ theorem afterSign_int (c : List Nat) (e : Nat) (neg : Bool) (off d1 : Nat) (xs :
             simp only [contInt, Bool.or_eq_false_iff] at hc
             refine ⟨x, hx, hc.1, ?_⟩
             intro h46; subst h46; simp [isDotOrE] at hc)]
-    simp only
+    simp only [thenScan]
     rw [afterScan_int c e neg off false _ (decVal (d1 :: xs)) (off + 1 + xs.length) (off + 1 + xs.length)
       (by simp only [hfold]; exact twentieth_stop c e _ _ hend) hpos hv hneg]
   · -- exactly 20 digits: 19 in the window, the 20th through the overflow test
@@ -192,7 +192,7 @@ theorem afterSign_int (c : List Nat) (e : Nat) (neg : Bool) (off d1 : Nat) (xs :
     simp only [hwin, if_false]
     rw [iter1_digits c e _ ys (off + 1) (d1 - 48) d1 0 false (isDigit_ne_dot (isNonZeroDigit_isDigit h1)) hdys hu2.1
       (by omega) (Or.inl (by omega))]
-    simp only
+    simp only [thenScan]
     have hr20 : rd c e (off + 1 + ys.length) = some d20 := hu2.2.1
     have hpush : pushDigit (decVal (d1 :: ys)) d20 = decVal (d1 :: (ys ++ [d20])) := by
       unfold pushDigit; rw [hval]; exact Nat.mod_eq_of_lt (by omega)
